@@ -81,6 +81,9 @@ def alignedCoarsenChunksWith (order : List Nat) (cs : List Nat) (m : Nat) : Opti
 def ValidOrder (order : List Nat) (cs : List Nat) (m : Nat) : Prop :=
   (∀ i ∈ order, i < cs.length) ∧ excessOf m cs / m ≤ order.length
 
+instance (order cs : List Nat) (m : Nat) : Decidable (ValidOrder order cs m) := by
+  unfold ValidOrder; exact inferInstance
+
 /-- the function with a stable argsort -/
 def alignedCoarsenChunks (cs : List Nat) (m : Nat) : Option (List Nat) :=
   alignedCoarsenChunksWith (modificationOrder m cs) cs m
